@@ -13,6 +13,7 @@ import (
 	"go/types"
 	"math/big"
 	"sort"
+	"strconv"
 	"strings"
 
 	"golang.org/x/tools/go/ssa"
@@ -898,12 +899,20 @@ func (e *Engine) addObligation(st *State, fr *Frame, kind, label string, goal *T
 		o.Hyps = append([]*Term{}, st.hyps...)
 	}
 	if dbg := os.Getenv("VCGO_DEBUG_OBL"); dbg != "" && strings.Contains(name, dbg) {
-		fmt.Fprintf(os.Stderr, "[obl] %s\n   goal: %s\n", name, trunc(pretty(goal, 12), 6000))
+		fmt.Fprintf(os.Stderr, "[obl] %s\n   goal: %s\n", name, trunc(pretty(goal, 9), 6000))
 		if os.Getenv("VCGO_DEBUG_HYPS") != "" {
 			for i, h := range st.hyps {
 				fmt.Fprintf(os.Stderr, "   hyp %d: %s\n", i, trunc(h.Key(), 300))
 			}
 			fmt.Fprintf(os.Stderr, "   trace: %v\n", st.trace)
+			if d := os.Getenv("VCGO_DEBUG_DIFF"); d != "" {
+				if k, err := strconv.Atoi(d); err == nil && k < len(st.hyps) {
+					a, b := firstDiff(goal, st.hyps[k], 0)
+					if a != nil {
+						fmt.Fprintf(os.Stderr, "   first difference (goal vs hyp %d):\n     goal: %s\n     hyp : %s\n", k, trunc(pretty(a, 5), 1500), trunc(pretty(b, 5), 1500))
+					}
+				}
+			}
 		}
 	}
 	e.obls = append(e.obls, o)
@@ -2288,4 +2297,60 @@ func beDigits(t *Term) (arr *Term, off, n int64, ok bool) {
 		}
 	}
 	return arr, off, n, true
+}
+
+// firstDiff descends two terms in parallel to the smallest pair of differing subterms (debugging aid).
+func firstDiff(a, b *Term, depth int) (*Term, *Term) {
+	if a.Key() == b.Key() {
+		return nil, nil
+	}
+	if depth > 60 {
+		return a, b
+	}
+	for a.Op == "not" && b.Op != "not" {
+		a = a.Args[0]
+	}
+	for b.Op == "not" && a.Op != "not" {
+		b = b.Args[0]
+	}
+	if a.Op == "poly" && b.Op == "poly" {
+		ka, kb := a.P.sortedKeys(), b.P.sortedKeys()
+		if len(ka) == len(kb) {
+			for i := range ka {
+				ea, eb := a.P.t[ka[i]], b.P.t[kb[i]]
+				if len(ea.m.f) == len(eb.m.f) {
+					for j := range ea.m.f {
+						if x, y := firstDiff(ea.m.f[j].atom, eb.m.f[j].atom, depth+1); x != nil {
+							return x, y
+						}
+					}
+				}
+			}
+		}
+		return a, b
+	}
+	if a.Op == b.Op && a.Name == b.Name && len(a.Args) == len(b.Args) && len(a.Args) > 0 {
+		for i := range a.Args {
+			if x, y := firstDiff(a.Args[i], b.Args[i], depth+1); x != nil {
+				return x, y
+			}
+		}
+	}
+	return a, b
+}
+
+func init() {
+	// commutative bit functions keep their arguments ordered when rebuilt after a substitution
+	for _, n := range []string{"bxor", "bor", "band"} {
+		appRebuilders[n] = func(t *Term, args []*Term) *Term {
+			a, b := args[0], args[1]
+			if a.Key() > b.Key() {
+				a, b = b, a
+			}
+			c := *t
+			c.Args = []*Term{a, b}
+			c.key = ""
+			return &c
+		}
+	}
 }
